@@ -149,15 +149,17 @@ class Engine:
                 cfg = "trunc:%s:%s" % (m, tier)
                 out.append((cfg, len(self.trunc_points(cfg))))
             out.append(("race", 400 if tier == "quick" else 20_000))
+            # compiled-library format: a kill between the rebuilt libraries and the cache file that describes them
+            out.append(("codegen_crash", 12 if tier == "quick" else 400))
             return out
         raise ValueError(prop)
 
     def chunk_size(self, config, tier):
-        return 1 if config == "codegen" else 40
+        return 1 if config.startswith("codegen") else 40
 
     def selftest_n(self, config, tier):
         # a codegen run costs ~10 s (child interpreters + gcc): repeat only a few of them for the determinism self-test
-        return (2 if tier == "quick" else 8) if config == "codegen" else 10 ** 9
+        return (2 if tier == "quick" else 8) if config.startswith("codegen") else 10 ** 9
 
     def min_cap(self, plan):
         return 25 if plan.get("kind") == "codegen" else 300
@@ -229,6 +231,8 @@ class Engine:
         if config == "codegen":
             p = self.gen_history(rng, codegen=True)
             return p
+        if config == "codegen_crash":
+            return self.gen_codegen_crash(rng)
         if config == "roundtrip":
             return {"kind": "roundtrip", "vals_seed": rng.randrange(1 << 30), "third": rng.random() < 0.5,
                     "chdir": rng.random() < 0.5, "extra": rng.random() < 0.3}
@@ -244,6 +248,37 @@ class Engine:
                     "chunk": rng.choice([None, None, 4096, 1000, 300]),
                     "sched_seed": rng.randrange(1 << 62), "cost": [50, 2000]}
         raise ValueError(config)
+
+    def gen_codegen_crash(self, rng):
+        """C21 for the compiled-library format: build, something that forces a rebuild (other options, an edit, another
+        version), the rebuilding process is killed at a file operation of its choice (between the four library builds,
+        inside the cache-file write ...), then new processes ask again - half of them with the options / version the
+        surviving cache file was written for."""
+        name = rng.choice(["Tank", "Ali", "Str", "UsesLib"])
+        ent = cp.POOL[name]
+        keys = ["model:" + f for f in ent["model"]] + ["lib:" + f for f in ent["lib"]]
+        opt_a = 0 if rng.random() < 0.5 else rng.randrange(len(cp.OPTION_SETS))
+        opt_b = rng.choice([i for i in range(len(cp.OPTION_SETS)) if i != opt_a])
+        cause = rng.choice(["options", "options", "edit", "version", "none"])
+        ops = []
+        if cause != "none":
+            ops.append({"op": "transfer"})
+            ops.append({"op": "restart"})
+        if cause == "options":
+            ops.append({"op": "options", "set": opt_b})
+        elif cause == "edit":
+            ops.append({"op": "edit", "file": rng.choice(keys), "vals": _vals(rng), "extra": rng.random() < 0.25})
+        elif cause == "version":
+            ops.append({"op": "version", "label": 1})
+        ops.append({"op": "transfer", "crash_at": rng.randint(0, 14)})
+        ops.append({"op": "restart"})
+        if cause == "options" and rng.random() < 0.6:
+            ops.append({"op": "options", "set": opt_a})
+        if cause == "version" and rng.random() < 0.6:
+            ops.append({"op": "version", "label": 0})
+        ops += [{"op": "transfer"}, {"op": "restart"}, {"op": "transfer"}]
+        return {"kind": "codegen", "crash": True, "model": name, "vals_seed": rng.randrange(1 << 30), "ops": ops, "optset": opt_a,
+                "mode": "codegen", "avoid": True, "hold_models": False}
 
     def gen_history(self, rng, codegen=False):
         name = rng.choice(MODELS if not codegen else ["Tank", "Ali", "Str", "UsesLib"])
@@ -492,6 +527,9 @@ class Engine:
                 cur = [op]
             else:
                 cur.append(op)
+                if op.get("crash_at") is not None:  # the process is killed inside this call: nothing more runs in it
+                    segs.append(cur)
+                    cur = []
         segs.append(cur)
         viol = None
         states = set()
@@ -550,6 +588,7 @@ class Engine:
         states = set()
         viol = None
         proc = None
+        crashed_in = job.get("crashed_in")
         held = []  # a caller that keeps the models it got (knob hold_models): their shared libraries stay mapped
         fs = fsim.FsSeam(sandbox, None, clock)
         with util.capture_pymoca_log(), fs:
@@ -591,7 +630,23 @@ class Engine:
                              "models_held" if job.get("hold_models") else "models_dropped"]
                     states.add(canon.digest((job["model"], optset, tuple(sorted(pending)), built_in_this_proc, loaded_in_this_proc,
                                              have_cache, "codegen")))
-                    got, err = self.call(proc, world, optset, "codegen")
+                    if op.get("crash_at") is not None:
+                        shape = ["codegen_crash"] + shape[1:]
+                        fs.crash_at = (len(fs.trace) + op["crash_at"], 0)
+                        try:
+                            got, err = self.call(proc, world, optset, "codegen")
+                        except core.SimCrash:
+                            site = fs.fired[-1]
+                            bump("fault:crash_%s" % site[2])
+                            log.append([clock.now_us, 0, "crash", "%s %s" % (site[2], fsim.norm_rel(site[3]))])
+                            states.add(canon.digest(("crash", job["model"], site[2], fsim.norm_rel(site[3]), tuple(sorted(pending)))))
+                            crashed_in = {"kind": site[2], "rel": fsim.norm_rel(site[3])}
+                            break
+                        finally:
+                            fs.crash_at = None
+                        bump("probe:crash_point_beyond_call")
+                    else:
+                        got, err = self.call(proc, world, optset, "codegen")
                     is_cached = got is not None and type(got).__name__ == "CachedModel"
                     log.append([clock.now_us, 0, "transfer", "cached" if is_cached else ("error" if err else "compiled")])
                     if is_cached:
@@ -610,7 +665,8 @@ class Engine:
                         break
         return {"viol": list(viol) if viol else None, "log": log, "counts": counts, "states": sorted(states),
                 "state": {"files": {k: [v[0], v[1]] for k, v in world.files.items()}, "late": world.late, "optset": optset,
-                          "label_i": label_i, "pending": sorted(pending), "have_cache": have_cache, "clock_us": clock.now_us}}
+                          "label_i": label_i, "pending": sorted(pending), "have_cache": have_cache, "clock_us": clock.now_us,
+                          "crashed_in": crashed_in}}
 
     # ---- C19: save -> restart -> load ---------------------------------------------------------------------
     def run_roundtrip(self, plan):
